@@ -78,3 +78,17 @@ End Oracles.
 Theorem C15_token_lexers_consume_and_stay_inside : forall veto l w n,
   In l GenLexers.token_lexers -> HandLex.lex veto l w = Some n -> 1 <= n <= length w.
 Proof. exact LexFacts.token_lexer_consumes. Qed.
+
+(* ------------------------------------------------------------------ the executable instance (Nom/Exec.v, Gen/GenPrims.v) *)
+(* both oracle hypotheses are theorems there (Props/C01.v: C01_exec_primitives_consume), so for the grammar as it is
+   run against the real parser: incomplete mode never ends in a parse error, whatever the text *)
+From SV Require Exec GenPrims C01.
+
+Theorem C15_exec_never_fails : forall inp fuel cap,
+  fst (Exec.exec GenPrims.span_defs GenPrims.prim_table grammar cap start_source_text_incomplete inp fuel) <> Err /\
+  fst (Exec.exec GenPrims.span_defs GenPrims.prim_table grammar cap start_library_text_incomplete inp fuel) <> Err.
+Proof.
+  intros inp fuel cap. unfold Exec.exec.
+  split; [apply C15_never_fails_sv|apply C15_never_fails_lib];
+    intros i a p n _ Hp; apply C01.C01_exec_primitives_consume in Hp; tauto.
+Qed.
